@@ -108,11 +108,46 @@ def axial_load(led):
                      {'code': [str(v) for v in nx], 'contract': str(want), 'difference': bad}, signature='Nxxtop')
 
 
+def load_asymmetry(led):
+    """bending moment of a load asymmetry: the first cosine harmonic of the edge load, Nxx(theta) = ... + Nxxtop[2] cos(theta), has the
+    moment  Int Nxx cos(alpha) (r2 cos theta) r2 dtheta = pi r2^2 cos(alpha) Nxxtop[2]  about the diameter, which must be MLA
+    (given directly, or xiLA*Fc)"""
+    for how in ('MLA', 'xiLA'):
+        it = PC.mk()
+        r2, L, alphadeg, Fc = real('r2'), real('L'), real('alphadeg'), real('Fc')
+        it.facts += [to_z3(r2) > 0, to_z3(L) > 0, to_z3(alphadeg) > 0, to_z3(alphadeg) < 90, to_z3(shims.PI) > 3,
+                     to_z3(shims.sym_cos(shims.sym_deg2rad(alphadeg))) > 0]
+        extra = dict(MLA=real('MLA')) if how == 'MLA' else dict(xiLA=real('xiLA'))
+
+        def run():
+            cc = PC.new_cc(it, alphadeg=alphadeg, r2=r2, L=L, Fc=Fc, n2=2, stack=[real('th0')], plyt=real('plyt'), laminaprop=(real('E1'),), **extra)
+            it.call(it.getattr(cc, '_rebuild'), [], {})
+            return cc
+        res = it.explore(run)
+        for n, (path, out) in enumerate(res):
+            name = '%s[load asymmetry given by %s]%s' % (RB, how, '' if len(res) == 1 else '#%d' % n)
+            if out[0] == 'raise':
+                led.fail(name + '/no-exception', RB, {'raises': out[1].tname}, signature='raise')
+                continue
+            nx = out[1].attrs['Nxxtop']
+            c_ = shims.sym_cos(shims.sym_deg2rad(alphadeg))
+            M = real('MLA') if how == 'MLA' else real('xiLA') * Fc
+            moment = shims.PI * r2 * r2 * c_ * (nx[2] if isinstance(nx[2], P) else P.const(nx[2]))
+            ok, bad = K.compare(moment, M)
+            others = [i for i in (1, 3, 4) if not ((not isinstance(nx[i], P) and nx[i] == 0) or (isinstance(nx[i], P) and nx[i].is_zero()))]
+            cl = name + '/moment of the edge load about the diameter == %s, other harmonics zero' % ('MLA' if how == 'MLA' else 'xiLA*Fc')
+            if ok and not others:
+                led.ok(cl, RB)
+            else:
+                led.fail(cl, RB, {'Nxxtop': [str(v) for v in nx], 'moment': str(moment), 'expected': str(M), 'difference': bad, 'non-zero harmonics': others}, signature='MLA:' + how)
+
+
 def body(led):
     led.assume("preconditions of ConeCyl._rebuild: the given lengths and radii are positive, 0 <= alphadeg < 90, r1 > r2 when both radii are "
                "given; pdLA is left at True (anything else raises NotImplementedError)")
     geometry(led)
     axial_load(led)
+    load_asymmetry(led)
     from . import c18_fext, c18_partition
     c18_fext.check(led)
     from . import c18_fext_any
